@@ -250,6 +250,40 @@ pub fn run(g: &mut Global) {
         &check,
     );
     g.random("random", g.tier.pick(50000, 3000000), &strategy, &check);
+    // windows far beyond 1024 slots: prefix of about two windows at several ring phases, suffix w or w+1
+    let bigp: Vec<(Kind, usize)> = {
+        let mut v = vec![];
+        for &k in &[Kind::Sma, Kind::Wma, Kind::Sd, Kind::Bb, Kind::Min, Kind::Max, Kind::FastStoch, Kind::Roc, Kind::Mfi] {
+            for n in [1025usize, 1500, 4097, 5000] {
+                v.push((k, n));
+            }
+        }
+        for &k in &[Kind::Mad, Kind::Cci, Kind::Er] {
+            for n in [1025usize, 1500] {
+                v.push((k, n));
+            }
+        }
+        v
+    };
+    let nbp = bigp.len() as u64;
+    let seed0 = g.seed;
+    g.exhaustive(
+        "large_periods",
+        nbp * g.tier.pick(2, 6),
+        &move |i| {
+            let (kind, n) = bigp[(i % nbp) as usize];
+            let ph = (i / nbp) as usize;
+            let w = kind.memory(n).unwrap();
+            let mut s = seed0 ^ (i + 13).wrapping_mul(0x9E3779B97F4A7C15);
+            let sd = splitmix(&mut s);
+            let mut g1 = crate::props::c13::Gen::new(sd, [0usize, 3, 1][ph % 3], 85.18, 7);
+            let prefix: Vec<RawBar> = (0..n + 4096 + ph * 777 + (sd % 500) as usize).map(|_| g1.bar()).collect();
+            let mut g2 = crate::props::c13::Gen::new(sd ^ 0xABCD, 0, 85.18, 7);
+            let suffix: Vec<RawBar> = (0..w + ph % 2).map(|_| g2.bar()).collect();
+            Case { cfg: cfg_small(kind, n), scalar: i % 2 == 0, prefix, suffix, gen_prefix: None }
+        },
+        &check,
+    );
     // forgetting after a very long life: more than 2^16 (all O(1)-per-step kinds) and 2^24 (a few) inputs
     // before the common suffix
     let seed = g.seed;
